@@ -67,6 +67,14 @@ def sortedPy {α : Type} (lt : α → α → Bool) (xs : List α) : List α :=
 def sortedPyRev {α : Type} (lt : α → α → Bool) (xs : List α) : List α :=
   isort (fun x y => !lt x y) xs
 
+/-- `sorted(xs, key=f)`: the keys are computed once (decorate, sort on the key only, undecorate) -/
+def sortedByKey {α β : Type} (lt : β → β → Bool) (f : α → β) (xs : List α) : List α :=
+  (sortedPy (fun (x y : β × α) => lt x.1 y.1) (xs.map (fun a => (f a, a)))).map Prod.snd
+
+/-- `sorted(xs, key=f, reverse=True)` -/
+def sortedByKeyRev {α β : Type} (lt : β → β → Bool) (f : α → β) (xs : List α) : List α :=
+  (sortedPyRev (fun (x y : β × α) => lt x.1 y.1) (xs.map (fun a => (f a, a)))).map Prod.snd
+
 /-! ## results -/
 
 /-- a generator returned by `sort`: the ids it yields, then the `docids` of the `Unsortable` it
@@ -194,8 +202,7 @@ def timReturned (limit : Option Nat) (missing : List Int) : List Int → Nat →
 def timsort (s : State V) (docids : List Int) (limit : Option Nat) (reverse raiseU : Bool) : Gen :=
   let key := fun d => AMap.get s.rev d                       -- `get`, ASC for a missing docid
   let missing := docids.filter (fun d => (key d).isNone)     -- appended by `get`, in input order
-  let ltKey := fun (a b : Int) => ltAsc (key a) (key b)
-  let sorted := if reverse then sortedPyRev ltKey docids else sortedPy ltKey docids
+  let sorted := if reverse then sortedByKeyRev ltAsc key docids else sortedByKey ltAsc key docids
   { ids := timLoop limit missing sorted 0,
     raised := if !timReturned limit missing sorted 0 && raiseU && !missing.isEmpty
               then some missing else none }
